@@ -10,6 +10,7 @@ import TantivyModel.Proofs.BitPacker4x
 import TantivyModel.Proofs.BlockCursor
 import TantivyModel.Proofs.Pipeline
 import TantivyModel.Proofs.JsonPositions
+import TantivyModel.Proofs.RecorderRemap
 /-!
 # C07 — The inverted index records exactly the terms, documents, frequencies, positions
 
@@ -206,6 +207,35 @@ theorem C07_invert_pipeline (o : RecOpt) (c : Corpus) (G : Recorder.GoodCorpus c
     intro d _
     simp [Recorder.docTokenCount_eq]
 
+/-- **The `doc_id_map` branch (index sorting).**  For the recorder of any term (any of the three
+recorders), `Recorder::serialize(.., Some(doc_id_map), ..)` — decode the stream in the *old* id
+space (deltas are accumulated there), map every doc id with `get_new_doc_id`, sort by the new id —
+hands the serializer exactly the term's postings with their doc id mapped and tf / positions
+staying with their document, in strictly increasing new-id order; and reading the serialized
+bytes back returns that list (as visible under the record option).  `newId` only needs to be
+injective on the term's documents and stay below TERMINATED. -/
+theorem C07_recorder_remap (o : RecOpt) (c : Corpus) (G : Recorder.GoodCorpus c) (t : Term)
+    (ht : t ∈ (invert c).terms.map (·.1)) (newId : Nat → Nat)
+    (hinj : (((postingsOf Gen.Postings.POSITION_GAP c t).map (Recorder.remapPosting newId)).map (·.doc)).Nodup)
+    (hbelow : ∀ p ∈ postingsOf Gen.Postings.POSITION_GAP c t, newId p.doc < Gen.Postings.TERMINATED) :
+    ∃ r, (Recorder.indexCorpus o c).table t = some r ∧
+      Recorder.readBack o (Recorder.serializeTermRemapped o r newId) =
+        some ((Recorder.sortPostings ((postingsOf Gen.Postings.POSITION_GAP c t).map
+          (Recorder.remapPosting newId))).map (project o)) ∧
+      ((Recorder.sortPostings ((postingsOf Gen.Postings.POSITION_GAP c t).map
+          (Recorder.remapPosting newId))).map (·.doc)).Pairwise (· < ·) ∧
+      (∀ x, x ∈ Recorder.sortPostings ((postingsOf Gen.Postings.POSITION_GAP c t).map
+          (Recorder.remapPosting newId)) ↔
+        ∃ p ∈ postingsOf Gen.Postings.POSITION_GAP c t, x = Recorder.remapPosting newId p) := by
+  have hmap : (invert c).terms.map (·.1) = termsOf Gen.Postings.POSITION_GAP c := by
+    simp [invert, invertWith, Function.comp_def]
+  rw [hmap] at ht
+  have hne : postingsOf Gen.Postings.POSITION_GAP c t ≠ [] :=
+    (Recorder.postingsFrom_ne_nil_iff _ t c 0).mpr ((mem_termsOf _ c t).mp ht)
+  obtain ⟨r, h1, _, h3, h4, h5⟩ := Recorder.remapped_pipeline o _ newId hne
+    (Recorder.termOK_of_goodCorpus c G t) hinj hbelow
+  exact ⟨r, by rw [Recorder.indexCorpus_table, h1], h3, h4, h5⟩
+
 /-! ### JSON fields: per-path positions -/
 
 /-- **Per path, a JSON field is a multi-valued text field.**  For one (document, JSON field) —
@@ -375,6 +405,8 @@ example : JsonPositions.occs 1 [⟨[97], true, [⟨[1], 0, 1⟩, ⟨[2], 1, 1⟩
     ⟨[97], false, [⟨[9], 0, 1⟩]⟩, ⟨[97], true, [⟨[1], 0, 1⟩]⟩] =
     [⟨[97], true, [1], 0⟩, ⟨[97], true, [2], 1⟩, ⟨[98], true, [3], 0⟩, ⟨[97], false, [9], 0⟩, ⟨[97], true, [1], 3⟩] := by
   decide
+example : Recorder.sortPostings ([⟨0, 1, [0]⟩, ⟨1, 2, [0, 2]⟩, ⟨2, 1, [4]⟩].map (Recorder.remapPosting (fun d => 2 - d))) =
+    [⟨0, 1, [4]⟩, ⟨1, 2, [0, 2]⟩, ⟨2, 1, [0]⟩] := by decide
 example : 0 < TermInfoStore.BLOCK_LEN ∧ TermInfoStore.BLOCK_LEN = 256 := by decide
 theorem C07_terminfo_example_good :
     TermInfoStore.GoodStore 2 [⟨512, 51, 57, 110, 134⟩, ⟨3, 57, 60, 134, 134⟩, ⟨9, 70, 100, 140, 150⟩] := by
